@@ -11,6 +11,7 @@ NA = {
  "C16": "pure string function judged by a deterministic external shell",
  "C17": "pure string function",
 }
+PENDING = ["C02", "C03", "C05", "C11", "C12", "C15", "C18", "C19", "C20"]
 SIM = "deterministic simulation: seeded search over schedules and faults on the mechanically rewritten real code, oracle over the recorded history, minimised replay file"
 CHECKS = {
  "C06": dict(world="laneworld", ref="5.1", tech=SIM + "; exactly-once ledger per task object, bounded liveness at simulator quiescence",
@@ -32,6 +33,9 @@ m = {
  "checks": [], "not_applicable": [{"property_id": k, "reason": v} for k, v in sorted(NA.items())],
  "notes": "Every check rebuilds from /repo's current working tree (scratch copy, removed on exit). Exit 2 = infrastructure trouble, never a verdict. known_findings.json lists genuine defects (open ones print KNOWN-FINDING and exit 0; fixed ones suppress nothing).",
 }
+for pid in PENDING:
+    if pid not in CHECKS:
+        m["not_applicable"].append({"property_id": pid, "reason": "not claimed in this commit: the simulated world for it is designed (DESIGN.md section 5) but not built yet"})
 for pid, c in sorted(CHECKS.items()):
     m["checks"].append({
         "property_id": pid, "quick_cmd": f"bin/simcheck -p {pid} -tier quick", "thorough_cmd": f"bin/simcheck -p {pid} -tier thorough",
